@@ -523,7 +523,7 @@ def run(ck):
                         "dataspans_ops": len(dops), "complete": complete3}
 
     # ---- seeded long histories
-    nhist = {"quick": 1100, "thorough": 5000}[ck.tier]
+    nhist = {"quick": 2000, "thorough": 6000}[ck.tier]
     rng = ck.rng("hist")
     for i in range(nhist):
         if ck.out_of_time():
